@@ -10,7 +10,7 @@ use crate::model::CountWriter;
 use crate::spec::avp as sa;
 use crate::spec::msg as sm;
 use crate::spec::{be16, bytes_eq};
-use crate::{check, nd, witness};
+use crate::{check, nd, require, witness};
 use rl2tp::avp::types as T;
 use rl2tp::avp::AVP;
 use rl2tp::common::{Reader, SliceReader, VecWriter};
@@ -65,7 +65,7 @@ pub fn data_rt_body(p: usize, with_nsnr: bool, with_len: bool, off: Option<usize
     }
     e.extend_from_slice(payload);
 
-    check!(w.data.len() == PREFIX + total, "C06,C09: a data message encodes to flag word, optional fields and payload, appended after what the writer held");
+    require!(w.data.len() == PREFIX + total, "C06,C09: a data message encodes to flag word, optional fields and payload, appended after what the writer held");
     check!(w.data[0] == prefix[0] && w.data[1] == prefix[1] && w.data[2] == prefix[2], "C09: octets already in the writer are untouched");
     check!(bytes_eq(&w.data[PREFIX..], &e), "C06,C09: data message octets equal the specification encoder's (flag word, big-endian fields in RFC 2661 order, payload), independent of position");
 
@@ -137,7 +137,7 @@ pub fn ctrl_enc_body(with_mt: bool) {
     if with_mt {
         sa::spec_record(&sv, &mut e);
     }
-    check!(w.data.len() == PREFIX + total, "C06,C07,C09: a control message encodes to its 12-octet header plus its AVPs, appended after what the writer held");
+    require!(w.data.len() == PREFIX + total, "C06,C07,C09: a control message encodes to its 12-octet header plus its AVPs, appended after what the writer held");
     check!(w.data[0] == prefix[0] && w.data[1] == prefix[1] && w.data[2] == prefix[2], "C09: octets already in the writer are untouched");
     check!(be16(&w.data, PREFIX + 2) as usize == total, "C07: the control-message Length field equals the number of octets emitted (the value's own length member is ignored)");
     let mut same = true;
@@ -191,7 +191,7 @@ pub fn ctrl_dec_body(with_mt: bool, reencode: bool) {
             check!(c.tunnel_id == tid && c.session_id == sid && c.ns == ns && c.nr == nr, "C03: ids and sequence numbers survive encode then decode");
             check!(c.length as usize == total, "C03: the decoded length field equals the number of octets emitted");
             check!(c.avps.len() == if with_mt { 1 } else { 0 }, "C03: the AVP list survives encode then decode (count)");
-            if with_mt {
+            if with_mt && c.avps.len() == 1 {
                 check!(sa::same(&c.avps[0], &sv), "C03: the AVP list survives encode then decode (value)");
             }
         }
@@ -270,7 +270,7 @@ pub fn avp_len_body(total: usize) {
     // — only reached if the encoder did not refuse —
     witness!(total > 1023, "C07: an AVP over 1023 octets is refused, not truncated");
     check!(w.written == total, "C07: the encoder emits header plus payload, nothing else");
-    check!(w.n_patches == 1, "C09: exactly one positional overwrite per AVP");
+    require!(w.n_patches == 1, "C09: exactly one positional overwrite per AVP");
     let (off, len, two) = w.patches[0];
     check!(off == start && len == 2, "C09: the positional overwrite lies inside the value being encoded (its own first two octets), for every starting position");
     let l10 = (((two[0] >> 6) as usize) << 8) | two[1] as usize;
@@ -314,7 +314,7 @@ pub fn ctrl_len_body(with_mt: bool) {
     m.write(&mut w);
     check!(w.written == total, "C07: the encoder emits the header plus the AVPs, nothing else");
     let np = if with_mt { 2 } else { 1 };
-    check!(w.n_patches == np, "C09: one positional overwrite per length field");
+    require!(w.n_patches == np, "C09: one positional overwrite per length field");
     let (off, len, two) = w.patches[np - 1];
     check!(off == start + 2 && len == 2, "C09: the Length overwrite lies inside the message being encoded (its own octets 2..4), for every starting position");
     check!(((two[0] as usize) << 8 | two[1] as usize) == total, "C07: the control-message Length field equals the number of octets emitted");
